@@ -17,6 +17,15 @@ GRAPHS: Dict[str, Dict[str, List[Tuple[str, Any]]]] = {
            "C": [("d", ("opt", "D"))]},
     # cycle through a list + an acyclic tail
     "G4": {"N": [("kids", ("list", "N")), ("leaf", "Q")], "Q": [("x", "int")]},
+    # found by the free-running driver: the only way from L_C4 back to the guard crosses C4, which an
+    # inner analysis has already cached as recursive
+    "G5": {"C0": [("f0", ("opt", "C3")), ("f1", ("list", "C1")), ("f2", ("list", "C4"))],
+           "C1": [("f0", ("opt", "C2"))],
+           "C2": [("f0", ("opt", "C4")), ("f1", ("opt", "C3")), ("f2", ("list", "C3"))],
+           "C3": [("f0", ("opt", "C0"))],
+           "C4": [("f0", ("opt", "C4")), ("f1", ("opt", "C2"))]},
+    # the same phenomenon, minimal: R -> [A, LB]; A -> OA -> A (inner cycle), A -> OR -> R; LB -> B -> OA2 ...
+    "G6": {"R": [("a", ("opt", "A")), ("bs", ("list", "A"))], "A": [("s", ("opt", "A")), ("r", ("opt", "R"))]},
 }
 
 PROGRAMS = {
@@ -24,6 +33,8 @@ PROGRAMS = {
     "G2": [{"t1": ["P", "S"], "t2": ["B", "S"]}, {"t1": ["P"], "t2": ["A"]}],
     "G3": [{"t1": ["D"], "t2": ["C"]}, {"t1": ["L"], "t2": ["R"]}],
     "G4": [{"t1": ["N"], "t2": ["N"]}, {"t1": ["N"], "t2": ["Q"]}],
+    "G5": [{"t1": ["C3"]}, {"t1": ["C3"], "t2": ["C1"]}],
+    "G6": [{"t1": ["R"]}, {"t1": ["R"], "t2": ["A"]}],
 }
 
 
